@@ -165,17 +165,17 @@ DECODER_ASSUMPTIONS = [
 
 CHECKS['C01'] = [file_run('c01', 1200, 30000, ['C01'])]
 LEVELS['C01'] = 'exploration'
-RULES['C01'] = 'case = generated writer program (1-3 FSR signals: type x definition class x first id x length class x partition class), closed, length and >=60 windows compared bit-for-bit with the submitted stream; distinct = distinct (type,def,first,len,partition,pattern) tuples of signals that accepted data'
+RULES['C01'] = 'case = generated writer program (1-3 FSR signals: type x definition class x first id x length class x partition class), closed, length and >=60 windows compared bit-for-bit with the submitted stream; distinct = distinct (type,def,first,len,partition,pattern) tuples of signals that accepted data. One case in four also defines a lower-numbered FSR signal that is never written (the open-time scan of first sample ids has to step over it). The far mode of C14 reads files whose chunk positions exceed 2^32 against the same model'
 ASSUME['C01'] = DECODER_ASSUMPTIONS
 
 CHECKS['C02'] = [file_run('c02', 400, 5000, ['C02'], extra=['--cpu', '600'])]   # the long-double oracle is O(samples) per request
 LEVELS['C02'] = 'exploration'
-RULES['C02'] = 'case = one FSR signal of a summarisable type with enough samples for the target summary level; ~80 (start,increment,count) requests per case checked against long-double statistics of the submitted samples with the tolerances of DESIGN 4-C02; distinct = (type,def class,levels on disk,first id class,pattern,gap)'
+RULES['C02'] = 'case = one FSR signal of a summarisable type with enough samples for the target summary level; ~80 (start,increment,count) requests per case checked against long-double statistics of the submitted samples with the tolerances of DESIGN 4-C02; distinct = (type,def class,levels on disk,first id class,pattern,gap). One case in three of a <= 8-bit type writes block-constant data (omitted blocks, blocks that are constant but for one sample, blocks of equal bytes whose samples differ inside a byte): level-0 statistics and request edges are then computed from rebuilt blocks'
 ASSUME['C02'] = ['requests on 64-bit types that need level 0 may return UNSUPPORTED_FILE (the reader cannot summarise 64-bit samples directly)', 'windows whose widened range contains gap fill or non-finite samples are skipped, as the statement excludes them']
 
 CHECKS['C09'] = [file_run('c09', 1500, 20000, ['C09'])]
 LEVELS['C09'] = 'exploration'
-RULES['C09'] = 'case = one signal written with 1-6 gap/overlap events (classes g0..g8 / o0..o6 incl. larger than the 32 KiB fill scratch); length, windows and (floats) stored level-1 summaries compared with the fill / keep-first model; distinct = (type,def,first,event sequence)'
+RULES['C09'] = 'case = one signal written with 1-6 gap/overlap events (classes g0..g8 / o0..o6 incl. larger than the 32 KiB fill scratch); length, windows and (floats) stored level-1 summaries compared with the fill / keep-first model; distinct = (type,def,first,event sequence). Overlap class 9: a stale block stamped k * 2^32 (+ less than its length) before the expected id - all of it old'
 ASSUME['C09'] = DECODER_ASSUMPTIONS
 
 CHECKS['C11'] = [file_run('c11', 800, 10000, ['C11'])]
@@ -185,7 +185,7 @@ ASSUME['C11'] = ['annotation timestamps of FSR signals are compared after rebasi
 
 CHECKS['C12'] = [file_run('c12', 1000, 10000, ['C12'])]
 LEVELS['C12'] = 'exploration'
-RULES['C12'] = 'case = one FSR signal with n UTC anchors (count class incl. 999/1000/1001, decimate factor, rate, drift, irregular spacing, equal times); full and partial iteration exact, 60 conversions per case against exact rational interpolation; distinct = (count class, factor, rate, first id, data, irregular, equal, drift)'
+RULES['C12'] = 'case = one FSR signal with n UTC anchors (count class incl. 999/1000/1001, decimate factor, rate, drift, irregular spacing, equal times); full and partial iteration exact, 60 conversions per case against exact rational interpolation; distinct = (count class, factor, rate, first id, data, irregular, equal, drift). With factor 2, one case in six holds more than 2^15 entries (the index reaches level 15 and that level\'s list has more than one chunk)'
 ASSUME['C12'] = ['tolerance 1 tick + |k|*2^-50 (double interpolation), anchors exact; inverse checked only where time advances >= 1 tick per sample']
 
 CHECKS['C13'] = [file_run('c13', 600, 5000, ['C13'])]
@@ -207,7 +207,7 @@ ASSUME['C05'] = DECODER_ASSUMPTIONS
 
 CHECKS['C14'] = [file_run(m, 30 if m != 'mix' else 120, 1200, ['C14']) for m in ALL_FILE_MODES] + [file_run('far', 160, 3000, ['C14', 'C01', 'C11', 'C12', 'C13'])]   # far: file positions beyond 2^32 (a hole only the library sees)   # + the threaded-writer run appended below
 LEVELS['C14'] = 'exploration'
-RULES['C14'] = 'every backend write of every writer run (synchronous writer programs of all file modes; threaded-writer programs under the controlled scheduler, where write() is a scheduling point and definitions are issued by application threads while the writer thread streams) is judged online by the write-once monitor against the previous bytes (shadow copy): appends, header link patches, head-table updates, file header at close; distinct = (mode, rewrite volume classes)'
+RULES['C14'] = 'every backend write of every writer run (synchronous writer programs of all file modes; threaded-writer programs under the controlled scheduler, where write() is a scheduling point and definitions are issued by application threads while the writer thread streams) is judged online by the write-once monitor against the previous bytes (shadow copy): appends, header link patches, head-table updates, file header at close; distinct = (mode, rewrite volume classes). Mode far: after the definitions and a few calls the append position of the synchronous writer is moved 2^32 .. 2^40 bytes ahead (jls_raw_chunk_seek on its raw handle; the interposed lseek/ftruncate hide the hole from the real file and from the shadow copy), so every position stored or returned to from then on needs more than 32 bits; all rules as before, and the library reader then reads the file through the same view and is compared with the model (lengths, samples, statistics, annotations, UTC, user data, definitions)'
 ASSUME['C14'] = ['the monitor sees exactly the write()/ftruncate() calls of backend_posix.o (link-time interposition); the reader repair path is out of scope of the property']
 
 CHECKS['C17'] = [file_run('mix', 80, 3000, ['C17']), file_run('c13', 100, 3000, ['C17']), dict(harness='h_crash', variant='plain', args=['--copy-every', '5'], quick=2 * 16, thorough=40 * 16, props=['C17'], name='crash')]
@@ -221,14 +221,14 @@ def crash_run(quick_programs, thorough_programs, props, variant='plain', extra=(
 
 CHECKS['C03'] = [crash_run(6, 64, ['C03'])]
 LEVELS['C03'] = 'fault_enumeration'
-RULES['C03'] = 'program = 1-3 signals of mixed types (1-4 summary levels, omission, annotations/UTC/user data interleaved, late definitions) run under the backend write log; EVERY cut between two writes and byte prefixes of the next write (all prefixes of writes <= 40 bytes, 6 prefixes otherwise; quick: for every 4th write) is materialised and opened by the real reader in its own process; everything exposed must be an unaltered in-order part of what was submitted (samples bit-exact, statistics by the C02 oracle); clause 2 (cut between writes, definitions on disk): open succeeds and at most the block in flight is lost. evaluations = crash images; distinct = program classes'
+RULES['C03'] = 'program = 1-3 signals of mixed types (1-4 summary levels, omission, annotations/UTC/user data interleaved, late definitions) run under the backend write log; EVERY cut between two writes and byte prefixes of the next write (all prefixes of writes <= 40 bytes, 6 prefixes otherwise; quick: for every 4th write) is materialised and opened by the real reader in its own process; everything exposed must be an unaltered in-order part of what was submitted (samples bit-exact, statistics by the C02 oracle); clause 2 (cut between writes, definitions on disk): open succeeds and at most the block in flight is lost. evaluations = crash images; distinct = program classes. Programs with large user data keep complete chunk images (8-byte aligned, consistent CRCs: a JLS file kept as user data) in two of the payloads; cuts behind the embedded images are always enumerated'
 ASSUME['C03'] = ['crash model: a prefix of the backend write sequence reaches the disk in order, the last write possibly partially (no reordering of writes by the OS)', 'synchronous writer programs only in this run; files <= ~60 KiB'] + DECODER_ASSUMPTIONS
 
 CHECKS['C19'] = [file_run('mix', 100, 5000, ['C19']), crash_run(3, 40, ['C19'])]
 
 CHECKS['C04'] = [dict(harness='h_flip', variant='plain', args=[], quick=3 * 16, thorough=12 * 16, props=['C04'], name='flip')]
 LEVELS['C04'] = 'fault_enumeration'
-RULES['C04'] = 'file = small closed file (two signals of different widths, 2 summary levels, annotation and UTC index levels, user data, an omitted block); faults: EVERY single-bit flip of the file (exhaustive per file), sampled 2/3-bit combinations inside one protected region, bursts of 1..32 bits, zero/0xFF/random overwrites incl. several chunks, END chunk and file-header length; each altered copy is opened in its own process and every reader result must be an error, the truth, or a correct prefix. evaluations = faults; distinct = (family, region kind, chunk tag, outcome)'
+RULES['C04'] = 'file = small closed file (two signals of different widths, 2 summary levels, annotation and UTC index levels, user data, an omitted block); faults: EVERY single-bit flip of the file (exhaustive per file), sampled 2/3-bit combinations inside one protected region, bursts of 1..32 bits, zero/0xFF/random overwrites incl. several chunks, END chunk and file-header length; each altered copy is opened in its own process and every reader result must be an error, the truth, or a correct prefix. evaluations = faults; distinct = (family, region kind, chunk tag, outcome). Family f: the crc32 field of a chunk header that links to a next item is replaced by the CRC of the same header with item_next = 0, whole or with its 1-3 low bytes kept (one burst of <= 32 bits; what a writer leaves when it stops inside a link update): in a closed file every iteration must deliver everything or report an error'
 ASSUME['C04'] = ['pad bytes between payload and CRC are not covered by any CRC: faults there must simply not change what is returned (counted separately)',
                  'family d (arbitrary overwrites) is outside the guaranteed detection of CRC-32C: an altered file whose CRCs all verify with the independent implementation is counted inconclusive, never a violation'] + DECODER_ASSUMPTIONS
 LEVELS['C19'] = 'fault_enumeration'
@@ -254,7 +254,7 @@ ASSUME['C06'] = ['schedules are produced at synchronisation/suspension-point gra
                  'the queue size is shrunk through the JLS_VERIF hook; with the 64 MiB default none of wrap/full/reject is reachable'] + DECODER_ASSUMPTIONS
 CHECKS['C07'] = [twr_run('c07', 1200, 40000, ['C07'])]
 LEVELS['C07'] = 'exploration'
-RULES['C07'] = 'case = flush-heavy program (a unique marker message before every checked flush; flush and close at every position; 1-2 producers; queues small enough to be full) x schedule (as C06, incl. consumer starvation with virtual-time jumps so that the 5 s send and 20 s flush time-outs are reached). At the instant jls_twr_flush returns 0 the I/O log must contain the marker write followed by an fsync; at jls_twr_close return the descriptor is closed and the file decodes and holds every accepted call (C06 oracle); an empty enabled set with unfinished threads = deadlock (reported with its wait-for state); a call exceeding 400k scheduling points = no progress. distinct = configuration x schedule signature'
+RULES['C07'] = 'case = flush-heavy program (a unique marker message before every checked flush; flush and close at every position; 1-2 producers; queues small enough to be full) x schedule (as C06, incl. consumer starvation with virtual-time jumps so that the 5 s send and 20 s flush time-outs are reached). At the instant jls_twr_flush returns 0 the I/O log must contain the marker write followed by an fsync; at jls_twr_close return the descriptor is closed and the file decodes and holds every accepted call (C06 oracle); an empty enabled set with unfinished threads = deadlock (reported with its wait-for state); a call exceeding 400k scheduling points = no progress. distinct = configuration x schedule signature. One case in ten: close on a queue filled to the last byte (drop-on-overflow, one- and two-sample calls until nothing fits) while the writer thread is starved for 9 virtual seconds - longer than the 5 s send timeout, so close has to try again'
 ASSUME['C07'] = ['liveness is judged in logical steps under virtual time, never by wall clock; "forever" = no enabled thread and no sleeper, or step budget exhausted',
                  'error returns (BUSY, TIMED_OUT) are legal outcomes of flush/send under starvation and only relax what must be on disk']
 
@@ -282,7 +282,7 @@ ASSUME['C08'] = ['"fits contiguously" is judged with a reserve of 12 bytes beyon
 
 CHECKS['C16'] = [simple_run('h_def', 'def', 300 + 60 + 16, 300 + 60 + 170, ['C16'], extra=['--cpu', '120'])]
 LEVELS['C16'] = 'exploration'
-RULES['C16'] = 'cases 0-299: complete grid {0,1,9,10,11,16,17,31,32,33,63,64,65,100,127,128,129,255,256,257}^4 x 15 types through jls_core_signal_def_validate/_align (relations, minimums, idempotence, zero = per-width default), one (type, samples_per_data) slice per case; cases 300-359: 12k (thorough 200k) sampled tuples each from 4 classes (<=70000, boundary 2^k+-1 / UINT32_MAX-k, mixed, uniform 32-bit); remaining cases: definition -> file -> jls_rd_signal -> second file, parameters identical. A normalisation above 1 CPU-second is a violation. distinct = exploration unit'
+RULES['C16'] = 'cases 0-299: complete grid {0,1,9,10,11,16,17,31,32,33,63,64,65,100,127,128,129,255,256,257}^4 x 15 types through jls_core_signal_def_validate/_align (relations, minimums, idempotence, zero = per-width default), one (type, samples_per_data) slice per case; cases 300-359: 12k (thorough 200k) sampled tuples each from 4 classes (<=70000, boundary 2^k+-1 / UINT32_MAX-k, mixed, uniform 32-bit); remaining cases: definition -> file -> jls_rd_signal -> second file, parameters identical. A normalisation above 1 CPU-second is a violation. distinct = exploration unit. Every tuple of an integer type is also normalised with a fixed-point exponent q in {1..255}: accepted/rejected alike and stored with the same six parameters as with q = 0'
 ASSUME['C16'] = ['the 4x32-bit domain is sampled and boundary-biased, not covered: the symbolic query named in the property quantifier is outside this technique family',
                  '"zero fields take the per-width defaults" is checked as: replacing a zero field by the value the all-zero definition of that width yields gives the same result (no independent table of defaults exists in the documentation)']
 
@@ -298,7 +298,7 @@ CHECKS['C10'] = [dict(harness='h_api', variant='asan', args=[], quick=2000, thor
                  dict(harness='h_file', variant='asan', args=['--mode', 'mix'], quick=40, thorough=1000, props=['C10'], name='asan-mix', env=C10_ENV)]
 CHECKS['C10'].append(twr_run('c06', 150, 6000, ['C10'], variant='asan', name='twr-c06-coop-asan', env=C10_ENV))   # the queue is the tail of one heap block: its last bytes are guarded by ASan only
 LEVELS['C10'] = 'exploration'
-RULES['C10'] = 'case = call sequence over the public API: a writer phase (sync or threaded; ids from {defined, 0, 255, 256, 300, 4095, 65535}, definition parameters from {0,1,9,10,255,65535..UINT32_MAX}, NULL/empty/UTF-8/70 KiB/1 MiB strings, lengths 0..70000, payloads up to 3 MiB) followed by 1-4 phases of reader calls on the written file or on a missing/non-JLS/truncated/bit-damaged file (windows negative/0/in range/one past/INT64_MAX, exact-size buffers, NULL callbacks), jls_copy, raw navigation at arbitrary offsets, statistics/crc. One AddressSanitizer+UBSan(bounds,null,div-by-zero,...) process per sequence with a CPU limit; LeakSanitizer is run once every handle is closed. The well-formed generators of C01/C09/C12/C13/mix are replayed under the same build (exact caller buffers). Violation key = (termination kind, sanitizer report kind, first frame in /repo/src, API call in flight). distinct = API functions reached + (function, error code) pairs observed'
+RULES['C10'] = 'case = call sequence over the public API: a writer phase (sync or threaded; ids from {defined, 0, 255, 256, 300, 4095, 65535}, definition parameters from {0,1,9,10,255,65535..UINT32_MAX}, NULL/empty/UTF-8/70 KiB/1 MiB strings, lengths 0..70000, payloads up to 3 MiB) followed by 1-4 phases of reader calls on the written file or on a missing/non-JLS/truncated/bit-damaged file (windows negative/0/in range/one past/INT64_MAX, exact-size buffers, NULL callbacks), jls_copy, raw navigation at arbitrary offsets, statistics/crc. One AddressSanitizer+UBSan(bounds,null,div-by-zero,...) process per sequence with a CPU limit; LeakSanitizer is run once every handle is closed. The well-formed generators of C01/C09/C12/C13/mix are replayed under the same build (exact caller buffers). Violation key = (termination kind, sanitizer report kind, first frame in /repo/src, API call in flight). distinct = API functions reached + (function, error code) pairs observed. Hostile files: one bad-file phase in two works on a CRC-consistent alteration of the written file (1-3 edits: a header field - links, tag, chunk_meta, previous length - or a 1/2/4/8-byte payload field replaced by 0, 1, +-1, 2^31, 2^32-1, 2^63, the file size, another chunk\'s offset, ...; header and payload CRC recomputed; one in four also cut at a chunk boundary so that the repair runs) - what the raw API can write - followed by reader calls and jls_copy. On those files only sanitizer reports and signals decide; running into the CPU limit is counted inconclusive (a file may announce 2^56 samples of gap, which copy and repair walk faithfully); one case may write at most 1 GiB (RLIMIT_FSIZE)'
 ASSUME['C10'] = ['AddressSanitizer is a red-zone tool: non-adjacent and intra-object overflows and reuse beyond the quarantine are not detected',
                  'UBSan is restricted to bounds, null, object-size, vla-bound, unreachable, nonnull-attribute and integer-divide-by-zero: the tree contains benign alignment / pointer-overflow instances that no property forbids',
                  '"valid pointers": NULL is passed only where the headers allow an absent value (strings of definitions, zero-length data, optional outputs) and for callbacks']
